@@ -286,6 +286,25 @@ def concrete_witness(got, want, signs, seed=0, tries=400):
     return None
 
 
+def eval_poly(p, env):
+    """integer value of a polynomial under an assignment of its base symbols; div[...] atoms (truncating division) are evaluated recursively;
+    raises KeyError for other uninterpreted atoms, ZeroDivisionError for a zero divisor"""
+    e2 = dict(env)
+    for s_ in p.symbols():
+        if s_ in e2:
+            continue
+        if s_.startswith("div["):
+            kind, args = irval._atoms[s_]
+            a, b = eval_poly(args[0], env), eval_poly(args[1], env)
+            if b == 0:
+                raise ZeroDivisionError
+            q = abs(a) // abs(b)
+            e2[s_] = q if (a >= 0) == (b > 0) else -q
+        else:
+            raise KeyError(s_)
+    return p.evaluate(e2)
+
+
 def sample_env(names, signs, rnd):
     env = {}
     for s in names:
@@ -322,8 +341,19 @@ def concrete_disagreement(ev, fn, args, signs, wants, seed=0, tries=80):
     names -= {"base", "out", "div", "ite", "float"}
     names = sorted(names)
     decided = 0
-    for _ in range(tries):
-        env = sample_env(names, signs, rnd)
+    # few symbols: every member with small values of each symbol's sign class (special layouts such as gap-free permuted ones are rare under sampling)
+    small = {POS: (1, 2, 3), NEG: (-1, -2, -3), NONNEG: (0, 1, 2), NONPOS: (0, -1, -2), NONZERO: (-2, -1, 1, 2), ZERO: (0,)}
+    cand = [small.get(signs.get(nm, ANY), (-1, 0, 1, 2)) for nm in names]
+    total = 1
+    for c_ in cand:
+        total *= len(c_)
+    if total <= 6000:
+        import itertools
+        members = [dict(zip(names, vals)) for vals in itertools.product(*cand)]
+        rnd.shuffle(members)
+    else:
+        members = (sample_env(names, signs, rnd) for _ in range(tries))
+    for env in members:
         penv = {k: P.const(v) for k, v in env.items()}
         try:
             cargs = [a.subst(penv) if isinstance(a, P) else a for a in args]
@@ -337,10 +367,10 @@ def concrete_disagreement(ev, fn, args, signs, wants, seed=0, tries=80):
             if g is None:
                 continue
             try:
-                wv = w.subst(penv)
-            except Exception:
+                wv = P.const(eval_poly(w, env))
+            except (KeyError, ZeroDivisionError):
                 continue
-            if any(sy.startswith("div[") or sy.startswith("ite[") for sy in (g.symbols() | wv.symbols())):
+            if any(sy.startswith("div[") or sy.startswith("ite[") for sy in g.symbols()):
                 continue
             if g != wv:
                 return dict(assignment=env, observable_offset=off, got=repr(g), want=repr(wv), members_evaluated=decided)
@@ -415,19 +445,20 @@ class ViewRun:
                 continue
             # address
             want = (want_view.addr(idx[:Dp])) * ELEM
-            self.compare("%s.addr(%s)" % (fam_prefix, tag), fam_prefix + ".addr", st.get(0), want, signs, op, D)
+            self.rerun = (self.ev, fname(op, D, self.zb), args, signs)
+            self.compare("%s.addr(%s)" % (fam_prefix, tag), fam_prefix + ".addr", st.get(0), want, signs, op, D, off=0)
             if op.addr_only or Dp == 0:
                 continue
-            self.compare("%s.size(%s)" % (fam_prefix, tag), fam_prefix + ".shape", st.get(8), want_view.dims[0].z, signs, op, D)
-            self.compare("%s.num_elements(%s)" % (fam_prefix, tag), fam_prefix + ".shape", st.get(16), want_view.num_elements(), signs, op, D)
-            self.compare("%s.is_empty(%s)" % (fam_prefix, tag), fam_prefix + ".shape", st.get(24), P.const(0), signs, op, D)
+            self.compare("%s.size(%s)" % (fam_prefix, tag), fam_prefix + ".shape", st.get(8), want_view.dims[0].z, signs, op, D, off=8)
+            self.compare("%s.num_elements(%s)" % (fam_prefix, tag), fam_prefix + ".shape", st.get(16), want_view.num_elements(), signs, op, D, off=16)
+            self.compare("%s.is_empty(%s)" % (fam_prefix, tag), fam_prefix + ".shape", st.get(24), P.const(0), signs, op, D, off=24)
             for k, d in enumerate(want_view.dims):
                 wants = [d.f, d.z, d.s, d.s, d.f * d.s, d.z * d.s]
                 for j, (on, w) in enumerate(zip(OBS, wants)):
                     fam = fam_prefix + (".inv" if on.startswith("raw") else ".shape")
-                    self.compare("%s.%s%d(%s)" % (fam_prefix, on, k, tag), fam, st.get(8 * (4 + 6 * k + j)), w, signs, op, D)
+                    self.compare("%s.%s%d(%s)" % (fam_prefix, on, k, tag), fam, st.get(8 * (4 + 6 * k + j)), w, signs, op, D, off=8 * (4 + 6 * k + j))
 
-    def compare(self, key, fam, got, want, signs, op, D):
+    def compare(self, key, fam, got, want, signs, op, D, off=None):
         rep = self.rep
         if got is None:
             rep.inconclusive(key, fam, "observable was not stored by the driver function")
@@ -438,7 +469,18 @@ class ViewRun:
                 rep.sample(dict(obligation=key, normal_form=repr(want)))
             return
         if has_ite(got):
-            rep.inconclusive(key, fam, "undecided condition in %r" % got)
+            # the library selects between forms on a condition the case does not fix: decide on concrete members of the case class
+            rr = getattr(self, "rerun", None)
+            wit = None
+            if rr is not None and off is not None:
+                ev_, fn_, args_, signs_ = rr
+                wit = concrete_disagreement(ev_, fn_, args_, signs_, {off: want}, common.seed_from_env(), tries=300)
+            if wit is not None:
+                rep.violated(key, fam, "%s: the library's result depends on a condition the case does not fix and disagrees with the specification on a concrete member of the "
+                             "case class: it computes %s, the specification prescribes %s, for %s" % (key, wit["got"], wit["want"], wit["assignment"]),
+                             dict(got=repr(got)[:400], want=repr(want), witness=wit, operation=op.expr if op else None, D=D))
+            else:
+                rep.inconclusive(key, fam, "undecided condition in %r" % got)
             return
         wit = concrete_witness(got, want, signs, common.seed_from_env())
         if wit is None:
@@ -582,7 +624,8 @@ class CustomRun:
                         w = P.const(w)
                     w = w.subst(env)
                     key = kover or "%s%s%s" % (it.key, ("." + name) if name else ("[%d]" % k if len(wants) > 1 else ""), ctag)
-                    cmp_.compare(key, it.family, st.get(8 * k), w, signs, type("o", (), {"expr": it.body})(), it.D)
+                    cmp_.rerun = (self.ev, self.fn(i), args, signs)
+                    cmp_.compare(key, it.family, st.get(8 * k), w, signs, type("o", (), {"expr": it.body})(), it.D, off=8 * k)
 
 
 def view_wants(want_view, idx, elem_bytes=ELEM, byte_off=0, raw=True, shape=True):
